@@ -396,6 +396,14 @@ def run_rename_relevance(prog, tier, repo):
     # the relevance test: (&Location, &DefinitionAndUses) -> Vec<Location>
     tests = {i for i, b in bodies.items() if b.nargs == 2 and strip_refs(b.locals[1]).s.endswith('Location')
              and 'DefinitionAndUses' in strip_refs(b.locals[2]).s}
+    if len(tests) > 1:
+        # several predicates over (location, definition-and-uses): the *range* test is the one that asks for containment
+        # (`Location::contains`), an exact-match predicate (`==`, `Vec::contains`) is not
+        def asks_containment(i):
+            own = [bodies[i]] + [prog.bodies[c] for c in prog.closures_of.get(i, []) if c in prog.bodies]
+            return any(not bl.cleanup and bl.term[0] == 'call' and (callee(bl.term)[1] or '').endswith('Location::contains')
+                       for x in own for bl in x.blocks)
+        tests = {i for i in tests if asks_containment(i)}
     if len(tests) != 1:
         res.cannot_decide(f'the range test of the renamer (found {len(tests)})')
         return [res]
